@@ -155,6 +155,26 @@ def p_oent(d, key, wd=False):
     return out
 
 
+# Private attributes the projection reads: exactly those rrule._iter reads (_dtstart _freq _interval _wkst
+# _count _until _bysetpos _bymonth _bymonthday _bynmonthday _byyearday _byeaster _byweekno _byweekday
+# _bynweekday _byhour _byminute _bysecond) in p_iter_state, plus _original_rule, which rrule.__str__ (anchored
+# by C13) and rrule.replace read, in p_rule.  The PROPERTY comparison (rule vs re-parsed rule) uses
+# p_iter_state only; p_rule is for the constructor / rrulestr correspondence with the model, whose state
+# includes the recorded arguments.  A refactor of these internals makes the evaluation fail closed.
+def p_iter_state(r):
+    out = e_dt(r._dtstart) + [r._freq, r._interval, r._wkst] + e_optint(r._count) + e_optdt(r._until)
+    out += p_optlist(r._bysetpos) + p_optlist(r._bymonth)
+    out += p_optlist(r._bymonthday) + p_optlist(r._bynmonthday)
+    out += p_optlist(r._byyearday) + p_optlist(r._byeaster) + p_optlist(r._byweekno)
+    out += p_optlist(r._byweekday)
+    if r._bynweekday is None:
+        out += [-1]
+    else:
+        out += [len(r._bynweekday)] + [int(x) for p in r._bynweekday for x in p]
+    out += p_optlist(r._byhour) + p_optlist(r._byminute) + p_optlist(r._bysecond)
+    return out
+
+
 def p_rule(r):
     out = e_dt(r._dtstart) + [r._freq, r._interval, r._wkst] + e_optint(r._count) + e_optdt(r._until)
     out += p_optlist(r._bysetpos) + p_optlist(r._bymonth)
@@ -224,14 +244,16 @@ def occurrences(r, n=6, budget=0.025):
     """first n occurrences as tuples (fields, tz tag) or 'TIMEOUT' / exception class name."""
     if SKIP_OCCURRENCES:
         return "TIMEOUT"
-    old = signal.signal(signal.SIGALRM, _alarm)
+    # the budget is CPU time of this process (ITIMER_VIRTUAL), so that a loaded machine does not turn
+    # comparisons into timeouts
+    old = signal.signal(signal.SIGVTALRM, _alarm)
     out = "TIMEOUT"
     try:
         try:
-            signal.setitimer(signal.ITIMER_REAL, budget)
+            signal.setitimer(signal.ITIMER_VIRTUAL, budget)
             out = [(d.year, d.month, d.day, d.hour, d.minute, d.second, d.microsecond, tztag(d.tzinfo))
                    for d in itertools.islice(iter(r), n)]
-            signal.setitimer(signal.ITIMER_REAL, 0)
+            signal.setitimer(signal.ITIMER_VIRTUAL, 0)
         except _Timeout:
             out = "TIMEOUT"
         except Exception as ex:  # noqa
@@ -241,11 +263,11 @@ def occurrences(r, n=6, budget=0.025):
     finally:
         while True:
             try:
-                signal.setitimer(signal.ITIMER_REAL, 0)
+                signal.setitimer(signal.ITIMER_VIRTUAL, 0)
                 break
             except _Timeout:
                 pass
-        signal.signal(signal.SIGALRM, old)
+        signal.signal(signal.SIGVTALRM, old)
     return out
 
 
